@@ -699,6 +699,59 @@ def pown_program(rng):
         g.close()
 
 
+def scalar_dispatch_program(rng):
+    """The five binary functions (and their operator forms) on every pair (scalar, non-scalar) and (scalar, scalar) with every
+    compatible batch pattern — a scalar WITH a minibatch included —, both operand orders, on both APIs: the scalar rule
+    applies whenever an operand has no dimensions, whatever its batch."""
+    g = Gen(rng)
+    try:
+        B = rng.choice([2, 3])
+        dims = [rng.choice([2, 3]) for _ in range(rng.choice([1, 2]))]
+        s1 = g.new_input([], 1, lo=1, hi=3)
+        sB = g.new_input([], B, lo=1, hi=3)
+        t1 = g.new_input(dims, 1, lo=1, hi=3)
+        tB = g.new_input(dims, B, lo=1, hi=3)
+        p = g.new_param(dims, lo=1, hi=3)
+        for f in ("add", "subtract", "multiply", "divide", "pow"):
+            for a in (s1, sB):
+                for b in (t1, tB, p, s1, sB):
+                    for (x, y) in ((a, b), (b, a)):
+                        if x is None or y is None:
+                            continue
+                        v = g.let(f, [x.name, y.name])
+                        if v is not None:
+                            g.emit("force " + v.name)
+        g.emit("nops")
+        return g.lines
+    finally:
+        g.close()
+
+
+def degenerate_list_program(rng):
+    """List-taking functions with a list of ONE element (and two equal ones): concat / batch::concat along axes inside,
+    at MAX_DEPTH and far beyond; the same validation applies as for longer lists, on both APIs."""
+    g = Gen(rng)
+    try:
+        dims = [rng.choice([1, 2, 3]) for _ in range(rng.choice([0, 1, 2]))]
+        x = g.new_input(dims, rng.choice([1, 2]))
+        p = g.new_param(dims or [2])
+        for v in (x, p):
+            if v is None:
+                continue
+            for ax in (0, 1, len(dims), 7, 8, 9, 100, 4294967295):
+                for lst in ("V:%s" % v.name, "V:%s,%s" % (v.name, v.name)):
+                    y = g.let("concat", [lst, ax])
+                    if y is not None:
+                        g.emit("force " + y.name)
+            y = g.let("batch::concat", ["V:%s" % v.name])
+            if y is not None:
+                g.emit("force " + y.name)
+        g.emit("nops")
+        return g.lines
+    finally:
+        g.close()
+
+
 def device_program(rng):
     """Programs over several devices on both APIs: copy with the device argument omitted (the default device), copy to a
     named device, and binary functions whose LEFT operand is a scalar on another device than the right operand."""
@@ -1356,6 +1409,11 @@ def _meta_program(rng, B, leaves_batched):
         vol = volume(dims)
         data = [[rng.randint(-3, 3) for _ in range(vol)] for _ in range(B if batched else 1)]
         leaves.append({"dims": dims, "batched": batched, "data": data, "param": (not batched) and rng.random() < 0.6})
+    # a scalar divisor (never 0; 3, 7, ... make x / k and x * (1 / k) differ in the last bit): shared or one per sample
+    if rng.random() < 0.5:
+        kb = rng.random() < 0.5
+        leaves.append({"dims": [], "batched": kb, "data": [[rng.choice([3, 7, -3, 6, 5, 9, 11])] for _ in range(B if kb else 1)],
+                       "param": False, "divisor": True})
     steps = []
     seed = rng.getrandbits(60)
 
@@ -1388,6 +1446,9 @@ def _meta_program(rng, B, leaves_batched):
             nm, dims = r.choice(cur)
             f = r.choice(["negative", "abs", "relu", "addk", "mulk", "ab", "ab", "slice", "flatten", "transpose", "sum", "max",
                           "flip", "broadcast", "matmul", "pick", "concat", "permute", "reshape", "stop_gradient", "min"])
+            divisors = [names[i][0] for i, lf in enumerate(leaves) if lf.get("divisor")]
+            if divisors and r.random() < 0.3:
+                f = "divs"
             out = "t%d" % k
 
             def dim(d, i):
@@ -1395,6 +1456,11 @@ def _meta_program(rng, B, leaves_batched):
             if f in ("negative", "abs", "relu", "flatten", "stop_gradient"):
                 lines.append("let %s = %s %s" % (out, f, nm))
                 nd = [volume(dims)] if f == "flatten" and volume(dims) > 1 else ([] if f == "flatten" else dims)
+            elif f == "divs":
+                if nm in divisors:
+                    continue
+                # the same division for every sample whether the divisor is shared or comes with the batch
+                lines.append("let %s = divide %s %s" % (out, nm, divisors[0])); nd = dims
             elif f == "addk":
                 lines.append("let %s = add %s %d" % (out, nm, r.randint(-2, 2))); nd = dims
             elif f == "mulk":
@@ -1468,7 +1534,8 @@ def metamorphic_streams(rng, tier):
     n = 25 if tier == "quick" else 250
     out = []
     for _ in range(n):
-        B = rng.choice([2, 2, 3, 4])
+        # mostly small batches; some at and around 8..12 (folding a batch into a shared operand may take another path there)
+        B = rng.choice([2, 2, 3, 4, 2, 3, 2, 3, 9, 12])
         pattern = rng.choice([[True, False], [True, True], [False, True], [True, False, False]])
         build, leaves = _meta_program(rng, B, pattern)
         out.append((B, build, leaves))
@@ -1537,7 +1604,8 @@ def run_metamorphic(chk, variant="asan"):
             continue
         # gradients of batch-1 parameters: sum over the samples (only when the result carries the batch,
         # otherwise each sample program sees the whole gradient)
-        if fb == B:
+        if fb == B and not any(" = divide " in l for l in full):
+            # (with a division in the program the values are not integers and the order of the gradient sum shows)
             fg = pick(full, fi, "grad")
             sgs = [pick(s, i, "grad") for s, i in zip(samples, si)]
             for gi, g in enumerate(fg):
